@@ -47,12 +47,40 @@ def _cvc5_check(smt2: str, timeout_ms: int):
         out = subprocess.run([CVC5_BIN, "--lang=smt2", f"--tlimit={timeout_ms}", "--enum-inst", "--nl-ext-tplanes", path],
                              capture_output=True, text=True, timeout=timeout_ms / 1000 + 10)
         first = (out.stdout.strip().splitlines() or ["error"])[0].strip()
-        r = first if first in ("sat", "unsat", "unknown") else "error"
+        r = first if first in ("sat", "unsat", "unknown") else ("unknown" if "interrupted" in (out.stdout + out.stderr) or "timeout" in (out.stdout + out.stderr) else "error")
         reason = (out.stdout + out.stderr)[-300:] if r in ("error", "unknown") else ""
     except subprocess.TimeoutExpired:
         r, reason = "unknown", "cvc5 timeout"
     except FileNotFoundError:
         r, reason = "error", "cvc5 binary missing"
+    finally:
+        try:
+            os.unlink(path)
+        except OSError:
+            pass
+    return r, time.time() - t0, reason
+
+
+Z3_OLD_BIN = "/usr/bin/z3"
+
+
+def _z3cli_check(smt2: str, timeout_ms: int):
+    """z3 4.8.12 (Debian CLI): a different version of the same solver; it decides some nonlinear / quantified
+    queries that z3 5.1 leaves open (and vice versa)"""
+    t0 = time.time()
+    with tempfile.NamedTemporaryFile("w", suffix=".smt2", delete=False, dir=os.environ.get("VERIF_TMP") or None) as f:
+        f.write(smt2)
+        path = f.name
+    try:
+        out = subprocess.run([Z3_OLD_BIN, f"-T:{max(1, timeout_ms // 1000)}", path], capture_output=True, text=True,
+                             timeout=timeout_ms / 1000 + 10)
+        first = (out.stdout.strip().splitlines() or ["error"])[0].strip()
+        r = first if first in ("sat", "unsat", "unknown") else ("unknown" if "timeout" in out.stdout else "error")
+        reason = out.stdout[-200:] if r != "unsat" and r != "sat" else ""
+    except subprocess.TimeoutExpired:
+        r, reason = "unknown", "z3-4.8 timeout"
+    except FileNotFoundError:
+        r, reason = "error", "z3 binary missing"
     finally:
         try:
             os.unlink(path)
@@ -68,6 +96,12 @@ def _work(job):
     r, dt, reason = _z3_check(smt2, first)
     backend = "z3"
     log = [("z3", r, round(dt, 3))]
+    if r in ("unknown", "error") and use_cvc5:
+        r0, dt0, reason0 = _z3cli_check(smt2, timeout_ms)
+        log.append(("z3-4.8.12", r0, round(dt0, 3)))
+        dt += dt0
+        if r0 in ("sat", "unsat"):
+            r, backend, reason = r0, "z3-4.8.12", ""
     if r in ("unknown", "error") and use_cvc5:
         r2, dt2, reason2 = _cvc5_check(smt2, timeout_ms)
         log.append(("cvc5", r2, round(dt2, 3)))
